@@ -110,8 +110,8 @@ def _search_blocks_for_fe(input_path: str, thread_idx: int, block_starts: List[i
                         try:
                             payload = cls()
                             if hasattr(payload, 'p1_time') or hasattr(payload, 'details'):
-                                payload.unpack(buffer=data, offset=i +
-                                               MessageHeader.calcsize(), message_version=header.message_version)
+                                payload.unpack(buffer=data[i + MessageHeader.calcsize():i + header.get_message_size()],
+                                               offset=0, message_version=header.message_version)
                                 p1_time = payload.get_p1_time()
                         except BaseException:
                             pass
